@@ -596,7 +596,18 @@ fn build_reply(r: &Value, served_json: &dyn Fn(&Value) -> Vec<u8>) -> Built {
         let damage = if cut.is_some() { format!("cut-{}{}", framing, if rst { "-rst" } else { "-fin" }) } else if cl_delta < 0 { "content-length-short".into() } else if cl_delta > 0 { "content-length-long".into() } else { "intact".into() };
         format!("{}xx/{}/{}{}/{}", status / 100, bl, framing, if either_ok { "+content-length" } else { "" }, damage)
     };
-    Built { behaviour: Behaviour::Reply { segments, rst, delay_ms: r["delay_ms"].as_u64().unwrap_or(0) }, meaning, class: if r["delay_ms"].as_u64().unwrap_or(0) > 0 { format!("slow/{}", class) } else { class }, cut_bucket: bucket, either_ok }
+    // Content negotiation: an endpoint that is *asked* for a compressed reply (Accept-Encoding:
+    // gzip) sends one. Only for intact, length-framed replies with a body; the shipped tool never
+    // asks, so for it nothing changes. (The gzip stream uses stored blocks: no compressor needed.)
+    let gzip_segments = if cut.is_none() && cl_delta == 0 && framing == "cl" && !no_body_status && status != 205 {
+        let gz = gzip_stored(&body);
+        let mut alt = format!("HTTP/1.1 {} {}\r\nContent-Type: application/json\r\nContent-Encoding: gzip\r\nVary: Accept-Encoding\r\nContent-Length: {}\r\n\r\n", status, reason(status), gz.len()).into_bytes();
+        alt.extend_from_slice(&gz);
+        Some(vec![alt])
+    } else {
+        None
+    };
+    Built { behaviour: Behaviour::Reply { segments, rst, delay_ms: r["delay_ms"].as_u64().unwrap_or(0), gzip_segments }, meaning, class: if r["delay_ms"].as_u64().unwrap_or(0) > 0 { format!("slow/{}", class) } else { class }, cut_bucket: bucket, either_ok }
 }
 
 pub fn success_expected(m: &Meaning) -> bool {
@@ -642,4 +653,55 @@ pub fn expected_target(path: &str) -> String {
         t.push('/');
     }
     t + q.unwrap_or("")
+}
+
+fn crc32(data: &[u8]) -> u32 {
+    let mut crc = 0xffff_ffffu32;
+    for b in data {
+        crc ^= *b as u32;
+        for _ in 0..8 {
+            crc = if crc & 1 != 0 { (crc >> 1) ^ 0xedb8_8320 } else { crc >> 1 };
+        }
+    }
+    !crc
+}
+
+/// A valid gzip stream holding `data` in stored (uncompressed) deflate blocks.
+pub fn gzip_stored(data: &[u8]) -> Vec<u8> {
+    let mut out = vec![0x1f, 0x8b, 0x08, 0x00, 0, 0, 0, 0, 0x00, 0x03];
+    let chunks: Vec<&[u8]> = if data.is_empty() { vec![&data[..]] } else { data.chunks(65535).collect() };
+    for (i, c) in chunks.iter().enumerate() {
+        out.push(if i + 1 == chunks.len() { 1 } else { 0 });
+        let len = c.len() as u16;
+        out.extend_from_slice(&len.to_le_bytes());
+        out.extend_from_slice(&(!len).to_le_bytes());
+        out.extend_from_slice(c);
+    }
+    out.extend_from_slice(&crc32(data).to_le_bytes());
+    out.extend_from_slice(&(data.len() as u32).to_le_bytes());
+    out
+}
+
+#[cfg(test)]
+mod tests {
+    #[test]
+    fn gzip_stored_is_a_valid_gzip_stream() {
+        for data in [Vec::new(), b"{}".to_vec(), "hello \u{e9} ".repeat(30000).into_bytes()] {
+            let gz = super::gzip_stored(&data);
+            let dir = std::env::temp_dir().join(format!("c20-gz-{}", std::process::id()));
+            std::fs::create_dir_all(&dir).unwrap();
+            let f = dir.join("x.gz");
+            std::fs::write(&f, &gz).unwrap();
+            let out = std::process::Command::new("gzip").arg("-dc").arg(&f).output().unwrap();
+            assert!(out.status.success(), "{}", String::from_utf8_lossy(&out.stderr));
+            assert_eq!(out.stdout, data);
+            let _ = std::fs::remove_dir_all(&dir);
+        }
+    }
+    #[test]
+    fn expected_target_model() {
+        for (p, t) in [("", "/"), ("/graphql#s", "/graphql"), ("/a/./b/../graphql", "/a/graphql"), ("//graphql", "//graphql"), ("/graphql?x=1#f", "/graphql?x=1"), ("/graphql/", "/graphql/"), ("/a/..", "/"), ("/v1/graphql;v=1", "/v1/graphql;v=1")] {
+            assert_eq!(super::expected_target(p), t, "{}", p);
+        }
+    }
 }
